@@ -51,6 +51,18 @@ def keptIndexGrouped (n : Nat) (index : List Nat) (p : Nat) : Nat :=
   let digits := unravel shape p
   ravel (keepDim.map fun d => shape.getD d 1) (keepDim.map fun d => digits.getD d 0)
 
+/-- the bitwise description of the same map: read the bits of `p` (qubit 0 most significant of `n`) at the measured
+positions, in order -/
+def keptIndexBitwise (n : Nat) (index : List Nat) (p : Nat) : Nat :=
+  index.foldl (fun acc q => 2 * acc + (p.testBit (n - 1 - q)).toNat) 0
+
+/-- the grouped and the bitwise description agree on every position of an `n`-qubit register -/
+def GroupingSpec (n : Nat) (index : List Nat) : Prop :=
+  ∀ p, p < 2 ^ n → keptIndexGrouped n index p = keptIndexBitwise n index p
+
+instance (n : Nat) (index : List Nat) : Decidable (GroupingSpec n index) := by
+  unfold GroupingSpec; infer_instance
+
 section
 variable {α : Type} [Add α] [Mul α] [Zero α] [Conj α]
 
